@@ -616,6 +616,12 @@ class Executor:
             return z3.BitVecVal(ord(m.group(1)), 32)
         m = re.fullmatch(r'ZeroSized: (.*)', c, re.S)
         if m:
+            cm = re.fullmatch(r'\{closure@([^}]+)\}', m.group(1).strip())
+            if cm:
+                o = Obj(m.group(1), 'closure@' + cm.group(1).split('/')[-1], 'closure'); o.data['loc'] = cm.group(1)
+                return o
+            if re.match(r'^(fn\(|for<)', m.group(1).strip()) is None and '{' not in m.group(1) and re.search(r'::[a-z_]\w*(::<.*>)?$', m.group(1).strip()):
+                return FnItem(m.group(1).strip())
             return Obj(m.group(1), 'zst')
         # named constants:  journal::writer::PRE_ALLOCATED_BYTES, file::MAGIC_BYTES, promoted refs ...
         o = Obj('', 'const:' + c[:60], 'const'); o.data['const'] = c
@@ -1135,7 +1141,16 @@ class Executor:
     def drop_place(self, st, depth, pl):
         fr = st.frames[depth]
         ty = self.place_ty(fr, pl)
-        if not self.is_droppy(ty) and base_name(ty) not in ('Option', 'Result', 'Box', 'Vec'):
+        generic_param = bool(re.fullmatch(r'[A-Z]\w?|impl .*', ty.strip()))
+        if generic_param:
+            # a value of a generic parameter type: its drop glue is that of the runtime value (closures passed as F)
+            c = self.place_cell(st, fr, pl)
+            if isinstance(c.val, Obj) and c.val.kind == 'closure':
+                yield from self.drop_value(st, c.val, c.val.ty)
+                return
+            yield st
+            return
+        if not self.is_droppy(ty) and base_name(ty) not in ('Option', 'Result', 'Box', 'Vec') and not ty.strip().startswith('{closure'):
             yield st
             return
         c = self.place_cell(st, fr, pl)
@@ -1145,6 +1160,9 @@ class Executor:
                 yield st
                 return
             v = self._materialise(st, fr, pl, c)
+        if ty.strip().startswith('{closure') and not (isinstance(v, Obj) and v.kind == 'closure'):
+            yield st
+            return
         yield from self.drop_value(st, v, ty)
 
     def drop_value(self, st, v, ty):
@@ -1191,6 +1209,22 @@ class Executor:
             return
         if v.data.get('dropped'):
             yield st
+            return
+        if v.kind == 'closure':
+            # drop glue of a closure: its by-value captures
+            v.data['dropped'] = True
+            cur = [st]
+            for i in sorted(k for k in v.fields if isinstance(k, int)):
+                nxt = []
+                for s3 in cur:
+                    v3 = v if s3 is st else self._find_obj(s3, v.uid)
+                    cv = v3.fields[i].val if v3 is not None and i in v3.fields else None
+                    if isinstance(cv, (Obj, EnumV)) and not isinstance(cv, Ref) and self.is_droppy(cv.ty):
+                        nxt.extend(self.drop_value(s3, cv, cv.ty))
+                    else:
+                        nxt.append(s3)
+                cur = nxt
+            yield from cur
             return
         if b in ('MutexGuard', 'RwLockReadGuard', 'RwLockWriteGuard'):
             self.contract.drop_guard(self, st, v, b)
